@@ -284,8 +284,11 @@ def c05(r):
             out.append(V("C05", "zroot-below-table", r, t, "roots below the water table", z=zr, zgw=zgw))
         if g[G_HI] > c["HI0"] + eps:
             out.append(V("C05", "hi-gt-hi0", r, t, "harvest index exceeds reference", hi=g[G_HI], hi0=c["HI0"]))
-        if g[G_HIADJ] > c["HI0"] * (1 + c["dHI0"] / 100.0) + eps:
-            out.append(V("C05", "hiadj-gt-cap", r, t, "adjusted harvest index exceeds cap", hi=g[G_HIADJ], cap=c["HI0"] * (1 + c["dHI0"] / 100.0)))
+        # (dHI0 = -9 is the catalogue's "not defined" marker — SugarCane, AlfalfaGDD: crops without stress adjustments of
+        # the harvest index; their allowed increase is none)
+        cap = c["HI0"] * (1 + max(c["dHI0"], 0.0) / 100.0)
+        if g[G_HIADJ] > cap + eps:
+            out.append(V("C05", "hiadj-gt-cap", r, t, "adjusted harvest index exceeds cap", hi=g[G_HIADJ], cap=cap))
         span = c["Tupp"] - c["Tbase"]
         if g[G_GDD] < -eps or g[G_GDD] > span + eps:
             out.append(V("C05", "gdd-range", r, t, "daily degree days outside range", gdd=g[G_GDD], span=span))
